@@ -16,7 +16,7 @@ PROP = "C14"
 LEVEL = "model_checking"
 RULE = ("E2: all schedules with <= K deviations (drop / duplicate / reorder / delay / early submission / server reply mode "
         "piggyback, separate CON, separate NON, silent / RST / ICMP error / sendmsg OSError / withdrawal of a held-back request or of the request whose exchange is open) of scripted submissions of CON and "
-        "NON requests to two peers (two ports of one host); distinct = distinct schedule; states = world digests at choice points")
+        "NON requests to two peers (two ports of one host), among them client requests behind the node's own separate response (acknowledged late, or never);  distinct = distinct schedule; states = world digests at choice points")
 ASSUMPTIONS = [
     "exchange time-outs are recognised by the head request failing with a time-out error (their timing is C03's subject)",
     "client-originated requests only; a server's separate CON response shares the same code path (MessageManager.send_message)",
